@@ -510,6 +510,8 @@ impl TaskEmitter {
     }
 
     async fn emit(&self, kind: EventKind) {
+        #[cfg(rip_verif)]
+        rip_kernel::verif::point("task.before_emit");
         let mut seq = self.seq.lock().await;
         let event = Event {
             id: Uuid::new_v4().to_string(),
@@ -521,8 +523,12 @@ impl TaskEmitter {
         *seq += 1;
 
         let _ = self.sender.send(event.clone());
+        #[cfg(rip_verif)]
+        rip_kernel::verif::point("task.sent");
         let mut guard = self.events.lock().await;
         guard.push(event.clone());
+        #[cfg(rip_verif)]
+        rip_kernel::verif::point("task.recorded");
         let _ = self.event_log.append(&event);
     }
 }
